@@ -334,6 +334,45 @@ pub fn hamming_whole<const B: usize, const LEN: usize>() {
     core::mem::forget((s1, s2));
 }
 
+/// hamming_dist between two slices of length LEN whose starts are drawn independently from
+/// {0, 1, 32, 33} (block-aligned and not, equal and different) over two fully symbolic 96-base
+/// strings; orientations symbolic.
+pub fn hamming_offsets<const LEN: usize>() {
+    let (s1, r1) = any_ds_len::<3>(96);
+    let (s2, r2) = any_ds_len::<3>(96);
+    let pick = || -> usize {
+        let hi: bool = kani::any();
+        let lo: bool = kani::any();
+        (if hi { 32 } else { 0 }) + (if lo { 1 } else { 0 })
+    };
+    let a1 = pick();
+    let a2 = pick();
+    let x = DnaStringSlice {
+        dna_string: &s1,
+        start: a1,
+        length: LEN,
+        is_rc: kani::any(),
+    };
+    let y = DnaStringSlice {
+        dna_string: &s2,
+        start: a2,
+        length: LEN,
+        is_rc: kani::any(),
+    };
+    let mut n = 0u32;
+    let mut i = 0;
+    while i < LEN {
+        if view(&r1, a1, LEN, x.is_rc, i) != view(&r2, a2, LEN, y.is_rc, i) {
+            n += 1;
+        }
+        i += 1;
+    }
+    assert!(x.hamming_dist(&y) == n);
+    kani::cover!(a1 == 0 && a2 == 32 && !x.is_rc && !y.is_rc && n > 3);
+    kani::cover!(a1 == 33 && a2 == 1 && x.is_rc);
+    core::mem::forget((s1, s2));
+}
+
 /// hamming_dist, long lengths (>= 1024 exercises the block loop): the second string equals
 /// the first except at two symbolic positions holding symbolic bases; expected distance is the
 /// number of positions actually changed. NB = blocks, LEN concrete.
